@@ -194,7 +194,12 @@ def check_chain(ctx, sizes, base):
             chained = Populations(pops).to_population()
             n = len(chained)
             if n != sum(sizes):
-                ctx.violation("ChainTrees.__init__", "cumsum-length", spec, n, sum(sizes), spec)
+                # who is wrong: the chain container (then a chain built directly from the members' containers is wrong as well) or to_population
+                direct_ok = len(ChainTrees([p.trees for p in pops])) == sum(sizes)
+                if direct_ok:
+                    ctx.violation("Populations.to_population", "total-length-is-the-sum-of-all-member-lengths", spec, n, sum(sizes), spec)
+                else:
+                    ctx.violation("ChainTrees.__init__", "cumsum-length", spec, n, sum(sizes), spec)
             else:
                 for i in range(-n, n):
                     if os.path.abspath(chained[i].source) != os.path.abspath(allfiles[i % n]):
